@@ -54,3 +54,168 @@ Theorem checked_start_is_covered mc items :
 Proof.
   intros H Hall. destruct (start_ok_sound mc H) as [c [m Hr]]. exact (mixed_session items (self_tab mc) mc c m Hr Hall).
 Qed.
+
+(* ================= the premises of the Sem-vs-VM session theorem, checked on a pair of states ================= *)
+Require Import Calc.SemSession.
+
+(* equality of values without arrays, floats and functions: enough for the globals a first tree binds *)
+Definition veq (a b : value) : bool :=
+  match a, b with
+  | VNil, VNil => true
+  | VInt x, VInt y => x =? y
+  | VBool x, VBool y => Bool.eqb x y
+  | VStr x, VStr y => String.eqb x y
+  | _, _ => false
+  end.
+
+Lemma veq_sound a b : veq a b = true -> a = b.
+Proof.
+  destruct a, b; try discriminate; cbn [veq]; intros H.
+  - reflexivity.
+  - apply Z.eqb_eq in H. subst. reflexivity.
+  - apply String.eqb_eq in H. subst. reflexivity.
+  - apply Bool.eqb_prop in H. subst. reflexivity.
+Qed.
+
+Fixpoint sl_eqb (a b : list string) : bool :=
+  match a, b with
+  | [], [] => true
+  | x :: a', y :: b' => String.eqb x y && sl_eqb a' b'
+  | _, _ => false
+  end.
+
+Lemma sl_eqb_sound : forall a b, sl_eqb a b = true -> a = b.
+Proof.
+  induction a as [|x a IH]; destruct b as [|y b]; try discriminate; [reflexivity|].
+  cbn [sl_eqb]. intros H. apply andb_prop in H. destruct H as [H1 H2]. apply String.eqb_eq in H1. subst.
+  rewrite (IH b H2). reflexivity.
+Qed.
+
+(* the closure Sem binds a leaf built-in to *)
+Definition leaf_closure_ok (st : sstate) (nm : string) (b : option bop) : bool :=
+  match gval (s_globals st) nm with
+  | VFun _ id =>
+      match assoc_get (s_clos st) id with
+      | Some c =>
+          (match sc_env c with None => true | Some _ => false end) &&
+          match b with
+          | Some bb =>
+              (sc_params c =? 1) &&
+              match bb, sc_body c with
+              | BWrite, NWrite (NLocal 0 _) => true
+              | BToa, NToa (NLocal 0 _) => true
+              | BAton, NAton (NLocal 0 _) => true
+              | _, _ => false
+              end
+          | None => (sc_params c =? 0) && match sc_body c with NRead => true | _ => false end
+          end
+      | None => false
+      end
+  | _ => true
+  end.
+
+Definition sem_b (st : sstate) : bool :=
+  leaf_closure_ok st "write" (Some BWrite) && leaf_closure_ok st "toa" (Some BToa) &&
+  leaf_closure_ok st "aton" (Some BAton) && leaf_closure_ok st "read" None &&
+  forallb (fun p => fst p <? s_next st) (s_clos st).
+
+Lemma leaf_bop_sound st nm b mo id :
+  leaf_closure_ok st nm (Some b) = true -> gval (s_globals st) nm = VFun mo id ->
+  exists lc ln, assoc_get (s_clos st) id =
+    Some {| sc_params := 1; sc_locals := lc; sc_body := bop_node b (NLocal 0 ln); sc_env := None |}.
+Proof.
+  unfold leaf_closure_ok. intros H Hv. rewrite Hv in H.
+  destruct (assoc_get (s_clos st) id) as [c|]; [|discriminate H]. destruct c as [pa lo bo en]. cbn [sc_env sc_params sc_body] in H.
+  destruct en; [discriminate H|]. cbn [andb] in H. apply andb_prop in H. destruct H as [H1 H2]. apply Z.eqb_eq in H1. subst pa.
+  destruct b, bo; try discriminate H2; destruct bo; try discriminate H2; destruct ix; try discriminate H2;
+    eexists; eexists; reflexivity.
+Qed.
+
+Lemma leaf_read_sound st mo id :
+  leaf_closure_ok st "read" None = true -> gval (s_globals st) "read" = VFun mo id ->
+  exists lc, assoc_get (s_clos st) id = Some {| sc_params := 0; sc_locals := lc; sc_body := NRead; sc_env := None |}.
+Proof.
+  unfold leaf_closure_ok. intros H Hv. rewrite Hv in H.
+  destruct (assoc_get (s_clos st) id) as [c|]; [|discriminate H]. destruct c as [pa lo bo en]. cbn [sc_env sc_params sc_body] in H.
+  destruct en; [discriminate H|]. cbn [andb] in H. apply andb_prop in H. destruct H as [H1 H2]. apply Z.eqb_eq in H1. subst pa.
+  destruct bo; try discriminate H2. eexists. reflexivity.
+Qed.
+
+Theorem sem_b_sound st : sem_b st = true -> sem_ok (tab_of (s_globals st)) st.
+Proof.
+  unfold sem_b. intros H. apply andb_prop in H. destruct H as [H Hf]. apply andb_prop in H. destruct H as [H Hr].
+  apply andb_prop in H. destruct H as [H Ha]. apply andb_prop in H. destruct H as [Hw Ht].
+  split; [|apply closfresh_b; exact Hf]. split; [|split].
+  - intros nm b mo id Hb Hv. cbn [tab_of ft_val] in Hv.
+    destruct (bop_name_cases nm b Hb) as [[E1 E2]|[[E1 E2]|[E1 E2]]]; subst nm b; cbn in Hv.
+    + exact (leaf_bop_sound st _ _ mo id Hw Hv).
+    + exact (leaf_bop_sound st _ _ mo id Ht Hv).
+    + exact (leaf_bop_sound st _ _ mo id Ha Hv).
+  - intros mo id Hv. cbn in Hv. exact (leaf_read_sound st mo id Hr Hv).
+  - intros nm body mo id Hb Hbody Hv. cbn [tab_of ft_body ft_val] in Hbody, Hv.
+    destruct (existsb (String.eqb nm) other_builtins) eqn:E; [|discriminate Hbody].
+    destruct (other_cases nm E) as [->|[->|[->| ->]]]; discriminate Hv.
+Qed.
+
+(* the relation of the two worlds *)
+Definition fun_names : list string := ["write"; "toa"; "aton"; "read"; "exit"; "fromto"; "indices"; "elems"]%string.
+
+Definition wrel_b (st : sstate) (mc : machine) : bool :=
+  let G1 := s_globals st in
+  let G2 := v_globals (mc_vm mc) in
+  forallb (fun k => is_bname (tab_of G1) k || veq (gval G1 k) (gval G2 k)) (map fst G1 ++ map fst G2) &&
+  sl_eqb (s_out st) (v_out (mc_vm mc)) && sl_eqb (s_in st) (v_in (mc_vm mc)) &&
+  forallb (fun nm => Bool.eqb (fun_eqb (gval G1 nm) (ft_val (tab_of G1) nm)) (fun_eqb (gval G2 nm) (ft_val (tab_of G2) nm))) fun_names.
+
+Lemma gval_not_key G g : ~ In g (map fst G) -> gval G g = VNil.
+Proof.
+  intros H. apply gval_no_key. apply forallb_forall. intros kv Hin. apply negb_true_iff.
+  destruct (String.eqb_spec (fst kv) g) as [E|_]; [|reflexivity]. exfalso. apply H. rewrite <- E. apply in_map. exact Hin.
+Qed.
+
+Theorem wrel_b_sound st mc :
+  wrel_b st mc = true ->
+  wrel (tab_of (s_globals st)) (tab_of (v_globals (mc_vm mc))) [] [] (wof_s st) (wof (mc_vm mc)).
+Proof.
+  unfold wrel_b. cbv zeta. intros H. apply andb_prop in H. destruct H as [H Hb]. apply andb_prop in H. destruct H as [H Hi].
+  apply andb_prop in H. destruct H as [Hg Ho].
+  constructor; cbn [wof_s wof w_glob w_out w_in].
+  - intros g Hn.
+    destruct (in_dec String.string_dec g (map fst (s_globals st) ++ map fst (v_globals (mc_vm mc)))) as [Hin|Hout].
+    + rewrite forallb_forall in Hg. specialize (Hg g Hin). rewrite Hn in Hg. cbn [orb] in Hg. exact (veq_sound _ _ Hg).
+    + rewrite !gval_not_key; [reflexivity| |]; intros X; apply Hout; apply in_or_app; [right|left]; exact X.
+  - exists (s_out st). rewrite app_nil_r. split; [reflexivity|]. symmetry. exact (sl_eqb_sound _ _ Ho).
+  - exact (sl_eqb_sound _ _ Hi).
+  - intros nm Hnm. rewrite forallb_forall in Hb.
+    assert (Hin : In nm fun_names).
+    { destruct (tab_names _ nm Hnm) as [->|[->|[->|[->|[->|[->|[->| ->]]]]]]]; cbn; tauto. }
+    exact (Bool.eqb_prop _ _ (Hb nm Hin)).
+Qed.
+
+(* the tables of two such states are always compatible *)
+Lemma tabs_any FN G1 G2 : incl other_builtins FN -> tabs_ok FN (tab_of G1) (tab_of G2).
+Proof.
+  intros Hinc. constructor.
+  - reflexivity.
+  - reflexivity.
+  - intros g Hg. unfold is_bname in *. destruct (bop_of_name g); [reflexivity|].
+    destruct (String.eqb g "read"); [reflexivity|]. cbn [orb] in *. cbn [tab_of ft_body] in Hg. cbn [BS ft_body].
+    destruct (existsb (String.eqb g) other_builtins) eqn:E; [|discriminate Hg].
+    apply existsb_exists in E. destruct E as [x [Hx Ex]]. apply String.eqb_eq in Ex. subst x.
+    assert (E2 : existsb (String.eqb g) FN = true) by (apply existsb_exists; exists g; split; [exact (Hinc g Hx)|apply String.eqb_refl]).
+    rewrite E2. reflexivity.
+  - intros nm body H. cbn [tab_of ft_body] in H. destruct (existsb (String.eqb nm) other_builtins); [|discriminate H].
+    injection H as <-. split; [reflexivity|exists []; reflexivity].
+Qed.
+
+Definition start_ok2 (st : sstate) (mc : machine) : bool := start_ok mc && sem_b st && wrel_b st mc.
+
+(* a pair of states that passes the checks runs every list of qualifying trees as the Sem-vs-VM session theorem says *)
+Theorem checked_pair_is_covered FN st mc items :
+  start_ok2 st mc = true -> incl other_builtins FN -> Forall (item_ok2 FN) items ->
+  agree [] [] (tab_of (s_globals st)) (self_tab mc) st mc items.
+Proof.
+  unfold start_ok2. intros H Hinc Hall. apply andb_prop in H. destruct H as [H Hw]. apply andb_prop in H. destruct H as [Hm Hs].
+  destruct (start_ok_sound mc Hm) as [c [m Hr]].
+  exact (agree_session FN [] [] items _ _ st mc c m (tabs_any FN _ _ Hinc) (sem_b_sound st Hs) Hr (wrel_b_sound st mc Hw) Hall).
+Qed.
